@@ -143,10 +143,29 @@ def promoted_expr(db, uneval, idx):
     return R.call(x) if si == 'term' else R.rvalue(x)
 
 
-def is_usize_const(e):
-    """Exactly the typenum constant `<N as Unsigned>::USIZE` (not an expression that merely mentions it, such as K - 1)."""
+def is_usize_const(e, of=None):
+    """Exactly a typenum constant `<N as Unsigned>::USIZE` (not an expression that merely mentions it, such as K - 1).
+    `of` restricts N: 'K' = the alphabet size `<A as Alphabet>::K`, 'C' = the column count / lane count of the backend,
+    'Q' = `<C as MultipleOf<U16>>::Quotient` (number of 16-column blocks)."""
     e = norm(e)
-    return e[0] == 'kc' and e[1].endswith('Unsigned::USIZE')
+    if not (e[0] == 'kc' and e[1].endswith('Unsigned::USIZE')):
+        return False
+    if of is None:
+        return True
+    self_ty = usize_self(e)
+    if of == 'K':
+        return self_ty.endswith('Alphabet>::K') or self_ty in ('K',)
+    if of == 'Q':
+        return self_ty.endswith('::Quotient')
+    if of == 'C':
+        return self_ty in ('C',) or self_ty.endswith('Backend>::Lanes')
+    return False
+
+
+def usize_self(e):
+    e = norm(e)
+    mm = re.match(r'^<(.*)>::[\w:]*Unsigned::USIZE$', e[1]) if e[0] == 'kc' else None
+    return mm.group(1) if mm else ''
 
 
 def is_call_to(e, *suffixes):
@@ -301,7 +320,7 @@ def cell_form(e):
 def covers_all_columns(extent, xs):
     """The loop extent is the full width of the row xs: the typenum constant C::USIZE, or len(xs) for a whole matrix row
     (rows are fixed-size arrays of exactly C elements)."""
-    if is_usize_const(extent):
+    if is_usize_const(extent, 'C'):
         return True
     if extent[0] == 'len' and norm(extent[1]) == norm(xs):
         x = norm(xs)
